@@ -1,6 +1,8 @@
 import CwPlus.Model.Cw4Group
 import CwPlus.Lemmas.Snapshot
 import CwPlus.Lemmas.Cw4Group
+import CwPlus.Lemmas.Paginate
+import CwPlus.Lemmas.Cw4GroupNodup
 /-!
 # C09 — cw4: totals and point-in-time weights always match the true history (cw4-group part)
 
@@ -688,5 +690,110 @@ example :
     (match updateMembers exState 11 "adm" [⟨true, "zoe"⟩] [(⟨true, "zoe"⟩, 4)] with
       | .ok r => (r.1.members.get? "zoe", r.1.members.get? "alice")
       | .error _ => (some 0, none)) = (none, some 5) := by decide
+
+/-! # Review round: the pieces composed
+
+* `total_at_height_eq_sum` / `snapshot_consistent`: the total *at a height* is the sum of the member weights
+  *at that height* (what cw3-flex relies on when it freezes a proposal's total and later reads voters'
+  weights at the proposal's start height);
+* `total_eq_sum_listed`: the total is the sum over what a client actually gets by paging through
+  `ListMembers`; `listing_vs_point`: every listed entry is what `Member {}` answers, and conversely. -/
+
+/-- **C09, cross-snapshot consistency**: for every accepted instantiation at `h0`, every ordered history and
+every height `h > h0`, `TotalWeight { at_height: h }` is the sum of the member table `T` that held at the
+start of block `h` (the current table of the state reached by exactly the calls of the blocks before `h`),
+and `Member { addr, at_height: h }` is the entry of `T` for every address: total and weights read at one
+height always belong to one and the same table. -/
+theorem total_at_height_eq_sum {msg : InstMsg} {h0 : Nat} {s0 : State} (hi : instantiate msg h0 = .ok s0)
+    (ops : List Op) (hge : ∀ op ∈ ops, h0 ≤ op.height) (hord : Ordered ops) (h : Nat) (hh : h0 < h) :
+    queryTotalWeight (run s0 ops) (some h) = AMap.sum (run s0 (ops.filter (fun o => o.height < h))).members.cur ∧
+    ∀ a, (run s0 ops).members.atHeight a h = (run s0 (ops.filter (fun o => o.height < h))).members.cur.get? a := by
+  constructor
+  · rw [total_at_height hi ops hge hord h, if_neg (by omega)]
+    exact (total_eq_sum_members hi _).1
+  · intro a
+    rw [member_at_height hi ops hge hord a h, if_neg (by omega)]
+    rfl
+
+/-- **C09, cross-snapshot consistency at every height** (also at or before instantiation, where the table is
+empty): there is one member table with one entry per address whose sum is the total reported at height `h`
+and whose entries are the weights reported at height `h`; its sum fits `u64`. -/
+theorem snapshot_consistent {msg : InstMsg} {h0 : Nat} {s0 : State} (hi : instantiate msg h0 = .ok s0)
+    (ops : List Op) (hge : ∀ op ∈ ops, h0 ≤ op.height) (hord : Ordered ops) (h : Nat) :
+    ∃ T : AMap Addr Nat, AMap.NodupKeys T ∧ AMap.sum T ≤ U64_MAX ∧
+      queryTotalWeight (run s0 ops) (some h) = AMap.sum T ∧
+      ∀ a, (run s0 ops).members.atHeight a h = T.get? a := by
+  by_cases hh : h ≤ h0
+  · refine ⟨[], by simp [AMap.NodupKeys, AMap.keys], by simp [U64_MAX], ?_, ?_⟩
+    · rw [total_at_height hi ops hge hord h, if_pos hh]; rfl
+    · intro a; rw [member_at_height hi ops hge hord a h, if_pos hh]; rfl
+  · obtain ⟨h1, h2⟩ := total_at_height_eq_sum hi ops hge hord h (by omega)
+    have hinv := run_inv (ops.filter (fun o => o.height < h)) (instantiate_inv hi)
+    exact ⟨_, hinv.2.1, hinv.2.2, h1, h2⟩
+
+/-- What a client gets from one `ListMembers { start_after: c, limit }` call with a well-formed cursor
+(nothing if the query is rejected). -/
+def listPage (s : State) (limit : Option Nat) (c : Option Addr) : List (Addr × Nat) :=
+  match queryListMembers s (c.map (⟨true, ·⟩)) limit with
+  | .ok l => l
+  | .error _ => []
+
+open Paginate in
+theorem listPage_eq (s : State) (limit : Option Nat) (c : Option Addr) :
+    listPage s limit c = page strLt (sortedEntries strLt s.members.cur) c limit := by
+  cases c <;> simp [listPage, queryListMembers, check, bind, Except.bind, pure, Except.pure]
+
+open Paginate in
+/-- Paging through `ListMembers` (cursor = last address of the previous page) returns the whole sorted
+member table on every reachable state (the C20 statement, re-derived here from `Lemmas/Paginate`). -/
+theorem fetch_complete {msg : InstMsg} {h0 : Nat} {s0 : State} (hi : instantiate msg h0 = .ok s0)
+    (ops : List Op) (limit : Option Nat) (hl : limit ≠ some 0) {fuel : Nat}
+    (hf : (run s0 ops).members.cur.length + 1 ≤ fuel) :
+    fetchLoop (listPage (run s0 ops) limit) (·.1) none fuel = sortedEntries strLt (run s0 ops).members.cur := by
+  have := fetchLoop_sortedEntries strictTotal_strLt (run_nodup ops (instantiate_nodup hi)) hl
+    (q := listPage (run s0 ops) limit) (key := (·.1)) (f := id)
+    (fun c => by rw [listPage_eq, List.map_id]) (fun _ => rfl) hf
+  simpa using this
+
+open Paginate in
+/-- **C09 `total_eq_sum_members`, over the listing a client actually fetches**: after any accepted
+instantiation and any history, paging through `ListMembers` (any page size `limit ≠ 0`, cursor = last
+address of the previous page, enough rounds) yields a list whose weights sum to `TotalWeight {}`. -/
+theorem total_eq_sum_listed {msg : InstMsg} {h0 : Nat} {s0 : State} (hi : instantiate msg h0 = .ok s0)
+    (ops : List Op) (limit : Option Nat) (hl : limit ≠ some 0) {fuel : Nat}
+    (hf : (run s0 ops).members.cur.length + 1 ≤ fuel) :
+    queryTotalWeight (run s0 ops) none =
+      AMap.sum (fetchLoop (listPage (run s0 ops) limit) (·.1) none fuel) := by
+  rw [fetch_complete hi ops limit hl hf, listed_sum]
+  exact (total_eq_sum_members hi ops).1
+
+open Paginate in
+/-- **C09, the listing agrees with the point query**: after any accepted instantiation and any history,
+`(a, w)` is listed by `ListMembers` (all pages together) exactly when `Member { addr: a }` answers `w`; no
+address is listed twice. -/
+theorem listing_vs_point {msg : InstMsg} {h0 : Nat} {s0 : State} (hi : instantiate msg h0 = .ok s0)
+    (ops : List Op) (a : Addr) (w : Nat) :
+    ((a, w) ∈ sortedEntries strLt (run s0 ops).members.cur ↔ weight (run s0 ops) a = some w) ∧
+    AMap.NodupKeys (sortedEntries strLt (run s0 ops).members.cur) := by
+  have hn := run_nodup ops (instantiate_nodup hi)
+  exact ⟨mem_sortedEntries_iff_get? strLt hn a w, sortedEntries_nodupKeys hn⟩
+
+open Paginate in
+/-- … in terms of the pages a client fetches. -/
+theorem fetched_vs_point {msg : InstMsg} {h0 : Nat} {s0 : State} (hi : instantiate msg h0 = .ok s0)
+    (ops : List Op) (limit : Option Nat) (hl : limit ≠ some 0) {fuel : Nat}
+    (hf : (run s0 ops).members.cur.length + 1 ≤ fuel) (a : Addr) (w : Nat) :
+    (a, w) ∈ fetchLoop (listPage (run s0 ops) limit) (·.1) none fuel ↔ weight (run s0 ops) a = some w := by
+  rw [fetch_complete hi ops limit hl hf]
+  exact (listing_vs_point hi ops a w).1
+
+/-- non-vacuity on `exOps`: at height 13 the table is `{alice: 9, carol: 1}`, total 10 -/
+example : queryTotalWeight (run exState exOps) (some 13)
+    = AMap.sum (run exState (exOps.filter (fun o => o.height < 13))).members.cur :=
+  (total_at_height_eq_sum (msg := exInst) rfl exOps (by decide) (by unfold Ordered; decide) 13 (by decide)).1
+example : (run exState (exOps.filter (fun o => o.height < 13))).members.cur = [("alice", 9), ("carol", 1)] := by
+  decide
+example := total_eq_sum_listed (msg := exInst) (h0 := 10) rfl exOps (some 1) (by decide) (fuel := 4) (by decide)
+example := fetched_vs_point (msg := exInst) (h0 := 10) rfl exOps (some 2) (by decide) (fuel := 4) (by decide) "bob" 4
 
 end CwPlus.Props.C09
